@@ -116,14 +116,14 @@ func c18Deps(t *kernel.Tape, names []string, vers map[string][]string, from, max
 	for i, n := 0, t.Choose(max+1); i < n; i++ {
 		d.Deps = append(d.Deps, one())
 	}
-	if t.Bool(1, 6) {
-		d.Dev = append(d.Dev, one())
-	}
-	if t.Bool(1, 6) {
-		d.Opt = append(d.Opt, one())
-	}
-	if t.Bool(1, 6) {
-		d.Peer = append(d.Peer, one())
+	// the other sections: usually empty, sometimes several entries (types
+	// built from one section must not leak into each other)
+	for _, sec := range []*[]svcDep{&d.Dev, &d.Opt, &d.Peer} {
+		if t.Bool(1, 5) {
+			for i, n := 0, 1+t.Choose(3); i < n; i++ {
+				*sec = append(*sec, one())
+			}
+		}
 	}
 	if len(d.Deps) > 0 && t.Bool(1, 4) {
 		d.Bundle = append(d.Bundle, d.Deps[t.Choose(len(d.Deps))].Name)
@@ -638,6 +638,9 @@ func RunC18(t *kernel.Tape, o Opts) *Result {
 			}
 			return &c18Op{Kind: "Resolve", Key: roots[t.Choose(len(roots))]}
 		case k == 3 && len(broots) > 0:
+			if t.Bool(1, 2) {
+				return &c18Op{Kind: "ScanBundles", Key: broots[t.Choose(len(broots))]}
+			}
 			return &c18Op{Kind: "Requirements", Key: broots[t.Choose(len(broots))]}
 		case k <= 5 && len(bundled) > 0:
 			b := bundled[t.Choose(len(bundled))]
@@ -755,6 +758,18 @@ func RunC18(t *kernel.Tape, o Opts) *Result {
 							rec.Requirements(tctx, op.Key)
 						case "MatchingVersions":
 							rec.MatchingVersions(tctx, op.Key)
+						case "ScanBundles":
+							// read every bundled package of one root, one call each
+							want := op.Key.Name + " " + op.Key.Version
+							for _, b := range bundled {
+								if rootOf[b.Name] != want {
+									continue
+								}
+								rec.Version(tctx, b)
+								mr := b
+								mr.VersionType = resolve.Requirement
+								rec.MatchingVersions(tctx, mr)
+							}
 						}
 					}()
 				}
@@ -996,6 +1011,18 @@ func RunC18(t *kernel.Tape, o Opts) *Result {
 		prog = append(prog, "|")
 	}
 	res.Distinct = hashStrings(model.SchemaText(), strings.Join(prog, ","), res.SchedHash)
+	{
+		var obs []string
+		for _, ops := range programs {
+			for _, op := range ops {
+				obs = append(obs, op.sig)
+			}
+		}
+		for _, c := range all {
+			obs = append(obs, fmt.Sprintf("%s|%v|%v|%s|%s", c.kind, c.found, c.notFound, c.errText, c.digest))
+		}
+		res.Digest = hashStrings(obs...)
+	}
 	if len(res.Violations) > 0 || len(res.RaceSteps) > 0 || o.WantDetail {
 		var ps [][]string
 		for _, ops := range programs {
